@@ -126,7 +126,8 @@ func c14Extra(r *core.Run) {
 		}
 		o.Site(n, p2cPkg)
 	})
-	c14R9(r) // round 9: rounding direction of the success score (c14_r9.go)
+	c14R9(r)  // round 9: rounding direction of the success score (c14_r9.go)
+	c14R10(r) // round 10: a candidate found unhealthy is drawn again for the next try (c14_r10.go)
 }
 
 // c14EvalString evaluates a string expression built from constants: a literal,
